@@ -1,6 +1,6 @@
 SPECIFICATION Spec
 CONSTANTS
-  Names = {"a", "b", "XLONG", ""}
+  Names = {"a", "b", "XLONG", "", "XUNI", "LUNI"}
   BaseLens = {0, 2}
   Align = {}
   EndAlign = {}
